@@ -98,8 +98,8 @@ func (h *Authorization) Unmarshal(v base.HeaderValue) error {
 		uriReceived := false
 		responseReceived := false
 
-		for k, rv := range kvs {
-			v := rv
+		for _, k := range sortedKeys(kvs) {
+			v := kvs[k]
 
 			switch k {
 			case "realm":
